@@ -199,6 +199,44 @@ func judgeBattle(c battleCase, rec *hx.Rec) string {
 	} else {
 		cls.loneDeath = true
 	}
+	// a second battle on the same simulator (Reset, same warriors spawned again, as
+	// the visual front-end does for every new round) must follow the rules too
+	final := b
+	sim.Reset()
+	b2 := ref.NewBattle(c.Cfg.M, c.Cfg.R, c.Cfg.W, c.Cfg.P, c.Cfg.Cycles)
+	for _, w := range c.Ws {
+		b2.Add(w)
+	}
+	for i := range c.Offs {
+		off := c.Offs[(i+1)%len(c.Offs)] // another placement than in the first round
+		if err := sim.SpawnWarrior(i, gmars.Address(off)); err != nil {
+			return fmt.Sprintf("second round: SpawnWarrior(%d,%d): %v", i, off, err)
+		}
+		b2.Spawn(i, off)
+	}
+	if d := cmpBattleState(sim, ws, b2); d != "" {
+		return "second round after Reset, after spawning: " + d
+	}
+	for cyc2 := 0; !b2.Decided() && b2.Living > 0; cyc2++ {
+		pr.pops = pr.pops[:0]
+		want, trace := b2.RunCycle()
+		got := sim.RunCycle()
+		if got != want {
+			return fmt.Sprintf("second round after Reset, cycle %d: RunCycle returned %d, reference %d", cyc2, got, want)
+		}
+		if len(pr.pops) != len(trace) {
+			return fmt.Sprintf("second round after Reset, cycle %d: executed tasks (warrior,pc): gmars %v, reference %v", cyc2, pr.pops, traceP(trace))
+		}
+		for i, tt := range trace {
+			if pr.pops[i] != [2]int{tt.Warrior, tt.PC} {
+				return fmt.Sprintf("second round after Reset, cycle %d: executed tasks (warrior,pc): gmars %v, reference %v", cyc2, pr.pops, traceP(trace))
+			}
+		}
+		if d := cmpBattleState(sim, ws, b2); d != "" {
+			return fmt.Sprintf("second round after Reset, cycle %d: %s", cyc2, d)
+		}
+	}
+	b = final
 	// run-to-completion on a fresh simulator must end in the same state
 	sim2, ws2, _, msg := setupBattle(c, nil)
 	if msg != "" {
@@ -257,7 +295,7 @@ func compactBattle(c battleCase) any {
 	return map[string]any{"cfg": c.Cfg, "warriors": ws}
 }
 
-const c02Rule = "rapid draws 1..4 warriors (length 1..6, any of the 7616 forms, entry point anywhere), load offsets anywhere (overlap allowed), core size 3..60 mostly plus 80/800/8000, process limit 1..16, cycle limit 1..500; gmars is stepped with RunCycle next to the reference scheduler and after every cycle the return value, executed (warrior,pc) list from WarriorTaskPop reports, every queue, alive flag, living count, cycle count and the whole core are compared; a fresh simulator's Run() must end in the same state. Non-trivial: a warrior dies while another lives, a push is dropped at the process limit, >=3 warriors, a warrior writes into another's loaded code, or the battle ends at the cycle limit with survivors; distinct by hash of the case."
+const c02Rule = "rapid draws 1..4 warriors (length 1..6, any of the 7616 forms, entry point anywhere), load offsets anywhere (overlap allowed), core size 3..60 mostly plus 80/800/8000, process limit 1..16, cycle limit 1..500; gmars is stepped with RunCycle next to the reference scheduler and after every cycle the return value, executed (warrior,pc) list from WarriorTaskPop reports, every queue, alive flag, living count, cycle count and the whole core are compared; the same simulator is then Reset, the warriors spawned at permuted offsets and a second battle compared the same way; a fresh simulator's Run() must end in the first battle's final state. Non-trivial: a warrior dies while another lives, a push is dropped at the process limit, >=3 warriors, a warrior writes into another's loaded code, or the battle ends at the cycle limit with survivors; distinct by hash of the case."
 
 func TestC02(t *testing.T) {
 	hx.Run(t, hx.Prop[battleCase]{
